@@ -75,4 +75,24 @@ theorem cutAt_spec (sep : UInt8) (s : Bytes) :
         | none => simp at ih ⊢; exact ⟨ih.1, fun hh => h hh.symm, ih.2⟩
         | some r' => simp at ih ⊢; exact ⟨ih.1, fun hh => h hh.symm, ih.2⟩
 
+/-- `is_alnum_plus_table` (the scheme scanner) is the Standard's scheme code points -/
+theorem alnum_plus_table : ∀ b : UInt8, (tget Gen.alnumPlusTable b.toNat != 0) = isSchemeChar b := by
+  apply forall_uint8_of_fin; decide +kernel
+
+/-- the double-dot spellings the path builder compares against are the Standard's four
+    (".." and its percent-encoded forms, lower-cased) -/
+theorem double_dot_table :
+    Gen.doubleDotTable = [[0x2E, 0x2E], [0x25, 0x32, 0x65, 0x2E], [0x2E, 0x25, 0x32, 0x65], [0x25, 0x32, 0x65, 0x25, 0x32, 0x65]] := by
+  decide
+
+/-- the special schemes and their default ports, in the order of `ada::scheme::type` -/
+theorem special_scheme_tables :
+    Gen.isSpecialList = [[104,116,116,112],[32],[104,116,116,112,115],[119,115],[102,116,112],[119,115,115],[102,105,108,101],[32]] ∧
+    Gen.specialPorts = [80, 0, 443, 80, 21, 443, 0, 0] ∧
+    (∀ i : Fin 8, (Gen.isSpecialList.getD i.val []) ≠ [32] →
+      Spec.defaultPort ((Gen.isSpecialList.getD i.val []).map UInt8.ofNat) =
+        (if Gen.specialPorts.getD i.val 0 = 0 then none else some (Gen.specialPorts.getD i.val 0)) ∧
+      Spec.isSpecialScheme ((Gen.isSpecialList.getD i.val []).map UInt8.ofNat) = true) := by
+  decide +kernel
+
 end AdaVerif.Props.C01
